@@ -2,7 +2,8 @@
    Property theorems only: each closed by [exact] of a lemma proved under Chart/. *)
 From Coq Require Import List String Ascii Bool ZArith.
 From Helm Require Import Chart.Paths Chart.PathsProofs Chart.Archive Chart.ArchiveProofs
-  Chart.Lock Chart.LockProofs Gen.Limits.
+  Chart.Lock Chart.LockProofs Chart.PathFns Chart.PathFnsProofs Chart.FsTree Chart.FsTreeProofs
+  Chart.FsLockProofs Chart.FsExplicit Gen.Limits.
 Import ListNotations.
 Local Open Scope string_scope.
 Local Open Scope Z_scope.
@@ -187,3 +188,240 @@ Print Assumptions C16_lock_symlink_refuted.
 Example C16_lock_symlink_now_refused : write_lock planted_fs "/work/chart" false "lock" = None.
 Proof. exact lock_symlink_refused. Qed.
 Print Assumptions C16_lock_symlink_now_refused.
+
+(* ====================================================================================== *)
+(* Round 4: path cleaning and joining inside the model, a nested file-system model         *)
+(* ====================================================================================== *)
+
+(* ---------- path.Clean / filepath.Clean, for every byte string ---------- *)
+Theorem C16_clean_idempotent : forall s : string, path_clean (path_clean s) = path_clean s.
+Proof. exact path_clean_idem. Qed.
+Print Assumptions C16_clean_idempotent.
+
+(* the result has no empty and no "." component; ".." occurs only as a leading run of a
+   relative result; an absolute result is "/" followed by such components *)
+Theorem C16_clean_components :
+  forall s : string,
+  (is_abs s = true ->
+     exists g, path_clean s = "/" ++ join "/" g /\
+               Forall (fun c => c <> "" /\ c <> "." /\ c <> "..") g /\
+               Forall (fun c => contains_char slash c = false) g) /\
+  (is_abs s = false ->
+     exists k g, path_clean s = (match (repeat ".." k ++ g)%list with [] => "." | l => join "/" l end) /\
+                 Forall (fun c => c <> "" /\ c <> "." /\ c <> "..") g /\
+                 Forall (fun c => contains_char slash c = false) g).
+Proof. exact path_clean_components. Qed.
+Print Assumptions C16_clean_components.
+
+(* an independently written test of cleanliness accepts every result, and everything it
+   accepts is a fixed point of path.Clean *)
+Theorem C16_clean_is_clean : forall s : string, is_clean_path (path_clean s) = true.
+Proof. exact path_clean_is_clean. Qed.
+Print Assumptions C16_clean_is_clean.
+
+Theorem C16_clean_fixed : forall p : string, is_clean_path p = true -> path_clean p = p.
+Proof. exact is_clean_fixed. Qed.
+Print Assumptions C16_clean_fixed.
+
+(* every name LoadArchiveFiles exposes, over the concrete clean: a fixed point of path.Clean,
+   relative, not ".", not starting with ".." *)
+Theorem C16_names_concrete :
+  forall (hdname n : string), arch_name hdname = inr n ->
+  path_clean n = n /\ is_clean_path n = true /\ is_abs n = false /\ n <> "." /\ has_prefix n ".." = false.
+Proof. exact arch_name_concrete. Qed.
+Print Assumptions C16_names_concrete.
+
+Theorem C16_names_concrete_files :
+  forall (maxt maxf : Z) (s : tstream) (fs : list file),
+  load_archive_files maxt maxf s = inr fs ->
+  Forall (fun f => path_clean (f_name f) = f_name f /\ is_clean_path (f_name f) = true /\
+                   is_abs (f_name f) = false /\ f_name f <> "." /\ has_prefix (f_name f) ".." = false) fs.
+Proof. exact loaded_names_concrete. Qed.
+Print Assumptions C16_names_concrete_files.
+
+(* cleanJoin with the final filepath.Join as the library does it (any root, "/" and "."
+   included): an accepted name keeps the cleaned root's components as a prefix, adds only good
+   components (backslashes are separators, a colon anywhere is refused), the result contains no
+   ".." component and is itself clean *)
+Theorem C16_cleanjoin2_confined :
+  forall (root dest p : string), clean_join2 root dest = inr p ->
+  let dest' := replace_char bslash slash dest in
+  let rest := filter (fun c => negb (trivial_comp c)) (split_on slash dest') in
+  Forall (fun c => c <> "" /\ c <> "." /\ c <> "..") rest /\
+  is_abs p = is_abs (path_clean root) /\
+  clean_comps p = (clean_comps (path_clean root) ++ rest)%list /\
+  existsb (fun c => String.eqb c "..") (clean_comps p) = false /\
+  path_clean p = p.
+Proof. exact clean_join2_confined. Qed.
+Print Assumptions C16_cleanjoin2_confined.
+
+Theorem C16_cleanjoin2_agrees :
+  forall (root dest : string),
+  has_dotdot (path_clean root) = false -> clean_comps (path_clean root) <> [] ->
+  match clean_join root dest, clean_join2 root dest with
+  | inl CJColon, inl CJ2Colon | inl CJDotDot, inl CJ2DotDot | inl CJAbs, inl CJ2Abs => True
+  | inr a, inr b => a = b
+  | _, _ => False
+  end.
+Proof. exact clean_join2_agrees. Qed.
+Print Assumptions C16_cleanjoin2_agrees.
+
+Example C16_cleanjoin2_ex :
+  clean_join2 "/" "a\b" = inr "/a/b" /\ clean_join2 "." "a" = inr "a" /\
+  clean_join2 "/r/" "c:\x" = inl CJ2Colon /\ clean_join2 "../r" "a" = inl CJ2Root.
+Proof. exact cleanjoin2_example. Qed.
+Print Assumptions C16_cleanjoin2_ex.
+
+(* ---------- the nested file-system model ---------- *)
+(* SecureJoin's contract, for every tree with symlinks anywhere (relative, absolute, chains,
+   loops, dangling): if the root R is a link-free canonical location, the result is R followed
+   by good components and NO location on the way to it, the result included, is a symlink *)
+Theorem C16_securejoin_confined :
+  forall (t : tnode) (root : list string) (unsafe : string) (out : list string),
+  Forall (fun c => c <> "" /\ c <> "." /\ c <> "..") root ->
+  (forall q, (exists r, root = (q ++ r)%list) -> forall tg, tget t q <> Some (TLink tg)) ->
+  secure_join t root unsafe = inr out ->
+  exists cur, out = (root ++ cur)%list /\
+              Forall (fun c => c <> "" /\ c <> "." /\ c <> "..") cur /\
+              (forall q, (exists r, out = (q ++ r)%list) -> forall tg, tget t q <> Some (TLink tg)).
+Proof. exact secure_join_confined_x. Qed.
+Print Assumptions C16_securejoin_confined.
+
+(* ... so the kernel resolves the result to itself, following the last component or not *)
+Theorem C16_securejoin_resolves :
+  forall (t : tnode) (root : list string) (unsafe : string) (out : list string) (follow : bool),
+  Forall (fun c => c <> "" /\ c <> "." /\ c <> "..") root ->
+  (forall q, (exists r, root = (q ++ r)%list) -> forall tg, tget t q <> Some (TLink tg)) ->
+  secure_join t root unsafe = inr out ->
+  c_walk t out follow = WErr EINVAL \/
+  match c_walk t out follow with
+  | WAt loc n => loc = out /\ tget t out = Some n
+  | WNew p c => (p ++ [c])%list = out /\ tget t out = None
+  | WErr _ => tget t out = None
+  | WLink _ _ _ => False
+  end.
+Proof. exact secure_join_resolves_x. Qed.
+Print Assumptions C16_securejoin_resolves.
+
+(* Expand, for every tree, every chart name and every list of loaded files: if the destination
+   R is a link-free canonical location holding a directory, then whatever the destination
+   already contains (symlinks pointing anywhere included), every location that is not R or
+   below R shows the same node afterwards, and no symlink is created anywhere *)
+Theorem C16_expand_confined :
+  forall (t : tnode) (R : list string) (name : string) (fs : list file) (t' : tnode) (e : option xerr),
+  Forall (fun c => c <> "" /\ c <> "." /\ c <> "..") R ->
+  (forall q, (exists r, R = (q ++ r)%list) -> forall tg, tget t q <> Some (TLink tg)) ->
+  (exists es, tget t R = Some (TDir es)) ->
+  expand_model t R name fs = (t', e) ->
+  (forall q, (forall r, q <> (R ++ r)%list) -> shallow_of (tget t' q) = shallow_of (tget t q)) /\
+  (exists es', tget t' R = Some (TDir es')) /\
+  (forall q tg, tget t' q = Some (TLink tg) -> tget t q = Some (TLink tg)).
+Proof. exact expand_confined_x. Qed.
+Print Assumptions C16_expand_confined.
+
+(* end to end from the tar entries: whatever archive LoadArchiveFiles accepts *)
+Theorem C16_expand_archive_confined :
+  forall (t : tnode) (R : list string) (name : string) (maxt maxf : Z) (s : tstream) (fs : list file)
+         (t' : tnode) (e : option xerr),
+  Forall (fun c => c <> "" /\ c <> "." /\ c <> "..") R ->
+  (forall q, (exists r, R = (q ++ r)%list) -> forall tg, tget t q <> Some (TLink tg)) ->
+  (exists es, tget t R = Some (TDir es)) ->
+  load_archive_files maxt maxf s = inr fs ->
+  expand_model t R name fs = (t', e) ->
+  (forall q, (forall r, q <> (R ++ r)%list) -> shallow_of (tget t' q) = shallow_of (tget t q)) /\
+  (exists es', tget t' R = Some (TDir es')) /\
+  (forall q tg, tget t' q = Some (TLink tg) -> tget t q = Some (TLink tg)).
+Proof. exact expand_archive_confined_x. Qed.
+Print Assumptions C16_expand_archive_confined.
+
+(* the same for the plugin installer's TarGzExtractor.Extract, for every tar entry sequence
+   (symlink and hard-link entries are refused as unknown types; regular files and directories
+   go through cleanJoin) *)
+Theorem C16_extract_confined :
+  forall (t : tnode) (R : list string) (s : tstream) (t' : tnode) (e : option xerr),
+  Forall (fun c => c <> "" /\ c <> "." /\ c <> "..") R ->
+  (forall q, (exists r, R = (q ++ r)%list) -> forall tg, tget t q <> Some (TLink tg)) ->
+  (exists es, tget t R = Some (TDir es)) ->
+  extract_model t R s = (t', e) ->
+  (forall q, (forall r, q <> (R ++ r)%list) -> shallow_of (tget t' q) = shallow_of (tget t q)) /\
+  (exists es', tget t' R = Some (TDir es')) /\
+  (forall q tg, tget t' q = Some (TLink tg) -> tget t q = Some (TLink tg)).
+Proof. exact extract_confined_x. Qed.
+Print Assumptions C16_extract_confined.
+
+(* the hypotheses are met by a destination full of hostile links ... *)
+Example C16_tree_hyp_ex :
+  Forall (fun c => c <> "" /\ c <> "." /\ c <> "..") ex_dest /\
+  (forall q, (exists r, ex_dest = (q ++ r)%list) -> forall tg, tget ex_tree q <> Some (TLink tg)) /\
+  (exists es, tget ex_tree ex_dest = Some (TDir es)).
+Proof. exact tree_hyp_ex. Qed.
+Print Assumptions C16_tree_hyp_ex.
+
+(* ... through which the kernel model does walk out of the destination ... *)
+Example C16_kernel_follows_ex :
+  c_walk ex_tree (ex_dest ++ ["mychart"; "keep"]) true = WAt ["sb"; "outside"; "dir"; "keep"] (TFile "keep") /\
+  c_walk ex_tree (ex_dest ++ ["a"; "chain"; "keep"]) true = WAt ["sb"; "outside"; "dir"; "keep"] (TFile "keep") /\
+  c_walk ex_tree (ex_dest ++ ["loop"; "x"]) true = WErr ELOOP /\
+  c_walk ex_tree (ex_dest ++ ["dang"]) true = WNew ["sb"; "outside"] "new".
+Proof. exact ex_kernel_follows. Qed.
+Print Assumptions C16_kernel_follows_ex.
+
+(* ... while SecureJoin keeps each of them inside *)
+Example C16_securejoin_ex :
+  secure_join ex_tree ex_dest "mychart/keep" = inr (ex_dest ++ ["outside"; "dir"; "keep"])%list /\
+  secure_join ex_tree ex_dest "a/chain/x" = inr (ex_dest ++ ["sb"; "outside"; "dir"; "x"])%list /\
+  secure_join ex_tree ex_dest "abs/../../x" = inr (ex_dest ++ ["x"])%list /\
+  secure_join ex_tree ex_dest "loop/x" = inl ELOOP /\
+  secure_join ex_tree ex_dest "../../outside/target" = inr (ex_dest ++ ["outside"; "target"])%list.
+Proof. exact ex_secure_join. Qed.
+Print Assumptions C16_securejoin_ex.
+
+(* what the theorem excludes: Expand's write with a lexical filepath.Join in place of
+   SecureJoin goes through the planted chart-directory link and overwrites a file outside *)
+Theorem C16_lexical_join_refuted :
+  let t' := fst (expand_file_lexical ex_tree (ex_dest ++ ["mychart"]) (mkFile "keep" "overwritten")) in
+  tget t' ["sb"; "outside"; "dir"; "keep"] = Some (TFile "overwritten") /\
+  tget ex_tree ["sb"; "outside"; "dir"; "keep"] = Some (TFile "keep").
+Proof. exact ex_lexical_join_escapes. Qed.
+Print Assumptions C16_lexical_join_refuted.
+
+Example C16_expand_inside_ex :
+  let r := expand_model ex_tree ex_dest "mychart" [mkFile "Chart.yaml" "name: mychart"; mkFile "keep" "new"] in
+  snd r = None /\
+  tget (fst r) (ex_dest ++ ["outside"; "dir"; "keep"]) = Some (TFile "new") /\
+  tget (fst r) ["sb"; "outside"; "dir"; "keep"] = Some (TFile "keep").
+Proof. exact ex_expand_inside. Qed.
+Print Assumptions C16_expand_inside_ex.
+
+(* writeLock on the nested model, for every tree, working directory and chart path: success
+   means ONE location D/<lock name> now holds a regular file; it is the location lstat resolves
+   the destination path to (the last component NOT followed) and held nothing or a regular
+   file.  Symlinks among the components of the chart path are the user's choice and are
+   followed by the kernel; a symlink at the lock file's own name is never written through. *)
+Theorem C16_lock_tree_confined :
+  forall (t : tnode) (cwd : list string) (chartpath : string) (legacy : bool) (data : string) (t' : tnode),
+  write_lock_t t cwd chartpath legacy data = (t', None) ->
+  exists D,
+    let loc := (D ++ [lock_name legacy])%list in
+    (tget t loc = None \/ exists old, tget t loc = Some (TFile old)) /\
+    tset t loc (TFile data) = Some t' /\
+    (k_walk t cwd (path_join chartpath (lock_name legacy)) false = WNew D (lock_name legacy) \/
+     exists old, k_walk t cwd (path_join chartpath (lock_name legacy)) false = WAt loc (TFile old)).
+Proof. exact write_lock_t_confined. Qed.
+Print Assumptions C16_lock_tree_confined.
+
+Theorem C16_lock_tree_failed :
+  forall (t : tnode) (cwd : list string) (chartpath : string) (legacy : bool) (data : string) (t' : tnode) (e : lerr),
+  write_lock_t t cwd chartpath legacy data = (t', Some e) -> t' = t.
+Proof. exact write_lock_t_failed. Qed.
+Print Assumptions C16_lock_tree_failed.
+
+Example C16_lock_tree_ex :
+  snd (write_lock_t ex_tree [] "/sb/work/dest/chart" false "lock") = Some LSymlink /\
+  snd (write_lock_t ex_tree [] "/sb/work/dest/linked" false "lock") = Some LSymlink /\
+  (let r := write_lock_t_prefix ex_tree [] "/sb/work/dest/linked" false "lock" in
+   snd r = None /\ tget (fst r) ["sb"; "outside"; "target"] = Some (TFile "lock")) /\
+  (let r := write_lock_t ex_tree [] "/sb/work/dest/mychart" false "lock" in
+   snd r = None /\ tget (fst r) ["sb"; "outside"; "dir"; "Chart.lock"] = Some (TFile "lock")).
+Proof. exact ex_lock. Qed.
+Print Assumptions C16_lock_tree_ex.
